@@ -89,6 +89,8 @@ var (
 		"! c\x01trl", "#\x00", "# esc \x1b[0m", "! \x7f", "#\v", "\u00a0# nbsp comment", "! <html>",
 	}
 	vfC15CtlBytes = []byte{0x00, 0x01, 0x07, 0x08, 0x0b, 0x0c, 0x0e, 0x1a, 0x1b, 0x1f, 0x7f}
+	// vfC15PlainCtlBytes are control bytes that are not white space.
+	vfC15PlainCtlBytes = []byte{0x00, 0x01, 0x07, 0x08, 0x0e, 0x1a, 0x1b, 0x1f, 0x7f}
 	vfC15HTML     = []string{
 		"<html>", "<!DOCTYPE html>", "<HTML lang=\"en\">", "  <!doctype html>", "<!DocType HTML PUBLIC \"-//W3C//DTD\">",
 		"\t<html><head><title>404 Not Found</title></head>", "<hTmL", "<!doctype",
@@ -101,7 +103,13 @@ var (
 )
 
 // vfC15DrawLine draws one logical line (without terminator) and its kind.
-func vfC15DrawLine(t *rapid.T, label string, n *int) (line, kind string) {
+func vfC15DrawLine(t *rapid.T, label string, n *int, exotic bool) (line, kind string) {
+	pads, blanks, comments, ctls := vfC15Pads, vfC15Blanks, vfC15Comments, vfC15CtlBytes
+	if !exotic {
+		// Only shapes every reading of the statement agrees on.
+		pads, blanks, comments, ctls = vfC15Pads[:5], vfC15Blanks[:6], vfC15Comments[:13], vfC15PlainCtlBytes
+	}
+
 	switch k := rapid.IntRange(0, 99).Draw(t, label+"_kind"); {
 	case k < 40:
 		return vfC15DrawRule(t, label), "rule"
@@ -109,15 +117,15 @@ func vfC15DrawLine(t *rapid.T, label string, n *int) (line, kind string) {
 		l := vfC15DrawRule(t, label)
 		side := rapid.IntRange(1, 3).Draw(t, label+"_side")
 		if side&1 != 0 {
-			l = rapid.SampledFrom(vfC15Pads).Draw(t, label+"_lpad") + l
+			l = rapid.SampledFrom(pads).Draw(t, label+"_lpad") + l
 		}
 		if side&2 != 0 {
-			l += rapid.SampledFrom(vfC15Pads).Draw(t, label+"_rpad")
+			l += rapid.SampledFrom(pads).Draw(t, label+"_rpad")
 		}
 
 		return l, "padded"
 	case k < 62:
-		return rapid.SampledFrom(vfC15Blanks).Draw(t, label+"_blank"), "blank"
+		return rapid.SampledFrom(blanks).Draw(t, label+"_blank"), "blank"
 	case k < 78:
 		if rapid.IntRange(0, 3).Draw(t, label+"_title") == 0 {
 			*n++
@@ -126,10 +134,10 @@ func vfC15DrawLine(t *rapid.T, label string, n *int) (line, kind string) {
 			return fmt.Sprintf("%s! Title: %sList %d%s", pad, pad, *n, pad), "title"
 		}
 
-		return rapid.SampledFrom(vfC15Comments).Draw(t, label+"_comment"), "comment"
+		return rapid.SampledFrom(comments).Draw(t, label+"_comment"), "comment"
 	case k < 84:
 		l := []byte(vfC15DrawRule(t, label))
-		c := rapid.SampledFrom(vfC15CtlBytes).Draw(t, label+"_ctl")
+		c := rapid.SampledFrom(ctls).Draw(t, label+"_ctl")
 		var pos int
 		switch rapid.IntRange(0, 2).Draw(t, label+"_ctlpos") {
 		case 0:
@@ -180,7 +188,13 @@ func vfC15DrawText(t *rapid.T) (text []byte, kinds map[string]int) {
 		return buf.Bytes(), kinds
 	}
 
-	if rapid.IntRange(0, 19).Draw(t, "bom") == 0 {
+	// Exotic texts also use Unicode white space, VT/FF, control bytes in
+	// comments and a byte-order mark, on which the statement is silent.
+	exotic := rapid.IntRange(0, 9).Draw(t, "exotic") >= 7
+	if exotic {
+		kinds["exotic"]++
+	}
+	if exotic && rapid.IntRange(0, 4).Draw(t, "bom") == 4 {
 		kinds["bom"]++
 		buf.WriteString("\xef\xbb\xbf")
 	}
@@ -190,9 +204,9 @@ func vfC15DrawText(t *rapid.T) (text []byte, kinds map[string]int) {
 		kinds["doc:html"]++
 		for i, n := 0, rapid.IntRange(0, 3).Draw(t, "html_pre"); i < n; i++ {
 			if rapid.Bool().Draw(t, fmt.Sprintf("html_pre%d_blank", i)) {
-				buf.WriteString(rapid.SampledFrom(vfC15Blanks).Draw(t, fmt.Sprintf("html_pre%d_b", i)))
+				buf.WriteString(rapid.SampledFrom(vfC15Blanks[:6]).Draw(t, fmt.Sprintf("html_pre%d_b", i)))
 			} else {
-				buf.WriteString(rapid.SampledFrom(vfC15Comments).Draw(t, fmt.Sprintf("html_pre%d_c", i)))
+				buf.WriteString(rapid.SampledFrom(vfC15Comments[:13]).Draw(t, fmt.Sprintf("html_pre%d_c", i)))
 			}
 			buf.WriteString(rapid.SampledFrom(vfC15Terms).Draw(t, fmt.Sprintf("html_pre%d_t", i)))
 		}
@@ -209,7 +223,7 @@ func vfC15DrawText(t *rapid.T) (text []byte, kinds map[string]int) {
 	}
 	for i := 0; i < n; i++ {
 		label := fmt.Sprintf("l%d", i)
-		line, kind := vfC15DrawLine(t, label, &titles)
+		line, kind := vfC15DrawLine(t, label, &titles, exotic)
 		kinds[kind]++
 		buf.WriteString(line)
 		term := rapid.SampledFrom(vfC15Terms).Draw(t, label+"_term")
@@ -458,7 +472,7 @@ func TestVFC15ParserLong(t *testing.T) {
 		for i := 0; i < n; i++ {
 			label := fmt.Sprintf("l%d", i)
 			if i != long && rapid.IntRange(0, 3).Draw(t, label+"_also_long") != 0 {
-				line, kind := vfC15DrawLine(t, label, &titles)
+				line, kind := vfC15DrawLine(t, label, &titles, false)
 				kinds[kind]++
 				buf.WriteString(line)
 				buf.WriteString(rapid.SampledFrom(vfC15Terms).Draw(t, label+"_term"))
